@@ -97,92 +97,93 @@ def compareLoc (left right : Loc) : Int :=
     else if right.st ≠ .endOfValue then 1 else -1
   else compareTypes left.st right.st
 
+/-- the scanner over the stored text: `done` is the text already passed (reversed), `rest` what is
+still ahead; `valueOffset` of the Go scanner is `done.length` -/
 structure Scanner where
-  buf : ByteArray
+  done : Bytes
+  rest : Bytes
   path : Loc
-  off : Nat
 
 inductive ScanErr where
   | eof | parse | corrupt | unexpected | panic
   deriving DecidableEq, Repr
 
-def Scanner.cur (s : Scanner) : UInt8 := if s.off < s.buf.size then s.buf.get! s.off else 0xFF
+/-- `current()`: 0xFF at the end of the buffer -/
+def Scanner.cur (s : Scanner) : UInt8 := s.rest.headD 0xFF
 
-/-- skip to the closing quote of a string (escape = skip two), then past it -/
-def skipString (buf : ByteArray) : Nat → Nat → Option Nat
-  | 0, _ => none
-  | f+1, i =>
-    let c := if i < buf.size then buf.get! i else 0xFF
-    if c = 0x22 then some (i+1)
-    else if c = 0x5c then skipString buf f (i+2)
-    else skipString buf f (i+1)
+/-- move `chunk` (a prefix of `rest`) to the passed text -/
+def Scanner.pass (s : Scanner) (chunk rest' : Bytes) (p : Loc) : Scanner :=
+  { done := chunk.reverse ++ s.done, rest := rest', path := p }
 
-/-- key string: as above but an end of buffer is a parse error; returns (key text end, next offset) -/
-def skipKey (buf : ByteArray) : Nat → Nat → Option (Nat × Nat)
-  | 0, _ => none
-  | f+1, i =>
-    if i ≥ buf.size then none
-    else
-      let c := buf.get! i
-      if c = 0x22 then some (i, i+1)
-      else if c = 0x5c then skipKey buf f (i+2)
-      else skipKey buf f (i+1)
+/-- a string value after its opening quote: everything up to and including the closing quote
+(escape = two bytes), and what follows.  (At the end of the buffer Go loops for ever: `none`.) -/
+def skipString : Bytes → Option (Bytes × Bytes)
+  | [] => none
+  | 0x22 :: t => some ([0x22], t)
+  | 0x5c :: c :: t => (skipString t).map (fun cr => (0x5c :: c :: cr.1, cr.2))
+  | c :: t => if c = 0x5c then none else (skipString t).map (fun cr => (c :: cr.1, cr.2))
 
-def skipScalar (buf : ByteArray) : Nat → Nat → Nat
-  | 0, i => i
-  | f+1, i =>
-    let c := if i < buf.size then buf.get! i else 0xFF
-    if c = 0x7d || c = 0x5d || c = 0x2c || c = 0xFF then i else skipScalar buf f (i+1)
+/-- a key string after its opening quote: the key text, and what follows the closing quote -/
+def skipKey : Bytes → Option (Bytes × Bytes)
+  | [] => none
+  | 0x22 :: t => some ([], t)
+  | 0x5c :: c :: t => (skipKey t).map (fun cr => (0x5c :: c :: cr.1, cr.2))
+  | c :: t => if c = 0x5c then none else (skipKey t).map (fun cr => (c :: cr.1, cr.2))
+
+def isStop (c : UInt8) : Bool := c = 0x7d || c = 0x5d || c = 0x2c || c = 0xFF
 
 def Scanner.acceptObjectKey (s : Scanner) : Except ScanErr Scanner :=
-  if s.cur ≠ 0x22 then .error .parse else
-  match skipKey s.buf (s.buf.size + 2) (s.off + 1) with
-  | none => .error .parse
-  | some (ke, nxt) =>
-    let key := unescapeKey (slice s.buf (s.off + 1) ke)
-    let c := if nxt < s.buf.size then s.buf.get! nxt else 0xFF
-    if c ≠ 0x3a then .error .parse
-    else .ok { s with path := (s.path.push (objElem key)).withState .startOfValue, off := nxt + 1 }
+  match s.rest with
+  | 0x22 :: t =>
+    match skipKey t with
+    | none => .error .parse
+    | some (keyText, afterQuote) =>
+      match afterQuote with
+      | 0x3a :: r =>
+        .ok (s.pass (0x22 :: keyText ++ [0x22, 0x3a]) r ((s.path.push (objElem (unescapeKey keyText))).withState .startOfValue))
+      | _ => .error .parse
+  | _ => .error .parse
 
 /-- `AdvanceToNextLocation` -/
 def Scanner.advance (s : Scanner) : Except ScanErr Scanner :=
-  if s.off ≥ s.buf.size then .error .eof else
-  match s.path.st with
-  | .startOfValue =>
-    let c := s.cur
-    if c = 0x22 then
-      match skipString s.buf (s.buf.size + 2) (s.off + 1) with
-      | some e => .ok { s with off := e, path := s.path.withState .endOfValue }
+  match s.rest with
+  | [] => .error .eof
+  | c :: t =>
+    match s.path.st with
+    | .startOfValue =>
+      if c = 0x22 then
+        match skipString t with
+        | some (body, r) => .ok (s.pass (0x22 :: body) r (s.path.withState .endOfValue))
+        | none => .error .parse
+      else if c = 0x5b then .ok (s.pass [c] t (s.path.withState .arrayInitial))
+      else if c = 0x7b then .ok (s.pass [c] t (s.path.withState .objectInitial))
+      else .ok (s.pass (c :: t.takeWhile (fun x => !isStop x)) (t.dropWhile (fun x => !isStop x)) (s.path.withState .endOfValue))
+    | .objectInitial =>
+      if c = 0x22 then s.acceptObjectKey
+      else if c = 0x7d then .ok (s.pass [c] t (s.path.withState .endOfValue))
+      else .error .parse
+    | .arrayInitial =>
+      if c = 0x5d then .ok (s.pass [c] t (s.path.withState .endOfValue))
+      else .ok { s with path := (s.path.withState .startOfValue).push (arrElem 0) }
+    | .endOfValue =>
+      let lastE := s.path.last
+      let p := s.path.pop
+      if lastE.isArr then
+        if c = 0x2c then .ok (s.pass [c] t ((p.push (arrElem (lastE.idx + 1))).withState .startOfValue))
+        else if c = 0x5d then .ok (s.pass [c] t (p.withState .endOfValue))
+        else .error .parse
+      else
+        if c = 0x2c then
+          let s' : Scanner := s.pass [c] t p
+          if s'.cur ≠ 0x22 then .error .parse else s'.acceptObjectKey
+        else if c = 0x7d then .ok (s.pass [c] t (p.withState .endOfValue))
+        else .error .parse
+    | .middleOfString =>
+      match skipString (c :: t) with
+      | some (body, r) => .ok (s.pass body r (s.path.withState .endOfValue))
       | none => .error .parse
-    else if c = 0x5b then .ok { s with off := s.off + 1, path := s.path.withState .arrayInitial }
-    else if c = 0x7b then .ok { s with off := s.off + 1, path := s.path.withState .objectInitial }
-    else .ok { s with off := skipScalar s.buf (s.buf.size + 2) (s.off + 1), path := s.path.withState .endOfValue }
-  | .objectInitial =>
-    if s.cur = 0x22 then s.acceptObjectKey
-    else if s.cur = 0x7d then .ok { s with off := s.off + 1, path := s.path.withState .endOfValue }
-    else .error .parse
-  | .arrayInitial =>
-    if s.cur = 0x5d then .ok { s with off := s.off + 1, path := s.path.withState .endOfValue }
-    else .ok { s with path := (s.path.withState .startOfValue).push (arrElem 0) }
-  | .endOfValue =>
-    let lastE := s.path.last
-    let p := s.path.pop
-    if lastE.isArr then
-      if s.cur = 0x2c then .ok { s with off := s.off + 1, path := (p.push (arrElem (lastE.idx + 1))).withState .startOfValue }
-      else if s.cur = 0x5d then .ok { s with off := s.off + 1, path := p.withState .endOfValue }
-      else .error .parse
-    else
-      if s.cur = 0x2c then
-        let s' : Scanner := { s with off := s.off + 1, path := p }
-        if s'.cur ≠ 0x22 then .error .parse else s'.acceptObjectKey
-      else if s.cur = 0x7d then .ok { s with off := s.off + 1, path := p.withState .endOfValue }
-      else .error .parse
-  | .middleOfString =>
-    match skipString s.buf (s.buf.size + 2) s.off with
-    | some e => .ok { s with off := e, path := s.path.withState .endOfValue }
-    | none => .error .parse
 
-/-- the loop of `AdvanceToLocation`; returns (found, scanner) -/
+/-- the loop of `AdvanceToLocation`; returns (comparison, previous scanner, scanner) -/
 def advanceToGo (target : Loc) : Nat → Scanner → Scanner → Except ScanErr (Int × Scanner × Scanner)
   | 0, _, _ => .error .corrupt
   | f+1, prev, s =>
@@ -194,8 +195,10 @@ def advanceToGo (target : Loc) : Nat → Scanner → Scanner → Except ScanErr 
       | .ok s' => advanceToGo target f s s'
     else .ok (cmp, prev, s)
 
+def Scanner.size (s : Scanner) : Nat := s.done.length + s.rest.length
+
 def advanceTo (s : Scanner) (target : Loc) (forRemoval : Bool) : Except ScanErr (Bool × Scanner) :=
-  match advanceToGo target (2 * s.buf.size + 16) s s with
+  match advanceToGo target (2 * s.size + 16) s s with
   | .error e => .error e
   | .ok (cmp, prev, cur) =>
     if cmp > 0 then .ok (false, prev)
@@ -216,9 +219,9 @@ def nextValue (s : Scanner) : Except ScanErr (Bytes × Scanner) :=
   match s.advance with
   | .error e => .error e
   | .ok s1 =>
-    match nextValueGo target (2 * s.buf.size + 16) s1 with
+    match nextValueGo target (2 * s.size + 16) s1 with
     | .error e => .error e
-    | .ok s2 => .ok (slice s.buf s.off s2.off, s2)
+    | .ok s2 => .ok ((s2.done.take (s2.done.length - s.done.length)).reverse, s2)
 
 /-- `jsonPathElementsFromMySQLJsonPath` on lexed legs (`last` is the unsupported-path fallback,
 `last-N` fails `strconv.Atoi`) -/
@@ -238,10 +241,10 @@ inductive IErr where
   | ref (e : Err) | invalidPath | scan (e : ScanErr) | badDoc
   deriving DecidableEq, Repr
 
-def mkScanner (b : Bytes) : Scanner := { buf := ByteArray.mk b.toArray, path := rootLoc, off := 0 }
+def mkScanner (b : Bytes) : Scanner := { done := [], rest := b, path := rootLoc }
 
-def restOf (s : Scanner) : Bytes := slice s.buf s.off s.buf.size
-def prefixOf (s : Scanner) : Bytes := slice s.buf 0 s.off
+def restOf (s : Scanner) : Bytes := s.rest
+def prefixOf (s : Scanner) : Bytes := s.done.reverse
 
 /-- `JsonChunker.Done`: what is written after the chunker's buffer — a comma when the chunker stands
 at the end of a value and the remaining text does not start with `}` `]` `,` — then the rest -/
@@ -321,7 +324,7 @@ def iRemove (doc : Bytes) (kp : Loc) : Except IErr (Bytes × Bool) :=
     match advanceTo c (kp.withState .endOfValue) false with
     | .error e => .error (.scan e)
     | .ok (_, after) =>
-      let after' := if isInitial ∧ after.cur = 0x2c then { after with off := after.off + 1 } else after
+      let after' : Scanner := if isInitial ∧ after.cur = 0x2c then after.pass [0x2c] (after.rest.drop 1) after.path else after
       .ok (prefixOf c ++ doneTail c.path.st (restOf after'), true)
 
 def iSet (doc : Bytes) (kp : Loc) (v : Bytes) : Except IErr (Bytes × Bool) :=
